@@ -111,3 +111,39 @@ func ErrOffset(err error) (int, bool) {
 	}
 	return 0, false
 }
+
+// checkLossless checks C04's invariants on a successful lex.
+func CheckLossless(in, filename string, r Run, noElided bool, skipsText bool) string {
+	prevEnd := 0
+	var sb strings.Builder
+	all := append(append([]lexer.Token{}, r.Toks...), *r.EOF)
+	for i, t := range all {
+		off := t.Pos.Offset
+		if off < prevEnd || off > len(in) {
+			return fmt.Sprintf("token %d %#v: offset %d overlaps previous token end %d or is out of range", i, t, off, prevEnd)
+		}
+		if !t.EOF() {
+			if off+len(t.Value) > len(in) || in[off:off+len(t.Value)] != t.Value {
+				return fmt.Sprintf("token %d %#v: value is not the input text at its offset", i, t)
+			}
+			if i > 0 && off == all[i-1].Pos.Offset {
+				return fmt.Sprintf("token %d %#v: offset not strictly increasing", i, t)
+			}
+			prevEnd = off + len(t.Value)
+			sb.WriteString(t.Value)
+		} else if off != len(in) {
+			return fmt.Sprintf("EOF at offset %d, expected %d", off, len(in))
+		}
+		line, col := PosAt(in, off)
+		if t.Pos.Line != line || t.Pos.Column != col {
+			return fmt.Sprintf("token %d %#v: line:col %d:%d, expected %d:%d for offset %d", i, t, t.Pos.Line, t.Pos.Column, line, col, off)
+		}
+		if t.Pos.Filename != filename {
+			return fmt.Sprintf("token %d %#v: filename %q, expected %q", i, t, t.Pos.Filename, filename)
+		}
+	}
+	if noElided && !skipsText && sb.String() != in {
+		return fmt.Sprintf("concatenated token values %q != input", sb.String())
+	}
+	return ""
+}
